@@ -52,9 +52,30 @@ for _m in ("Race", "Merge", "Zip", "Chain", "WaitUntil", "Groups", "CoStream", "
 import hashlib
 
 
-def _spec_hash(SPECS, names):
+def _module_closure(SPECS, root_mod):
+    """The modules of /verif/specs that root_mod depends on (EXTENDS / INSTANCE, transitively), itself included."""
+    seen, todo = set(), [root_mod.replace(".tla", "")]
+    while todo:
+        mname = todo.pop()
+        pth = os.path.join(SPECS, mname + ".tla")
+        if mname in seen or not os.path.exists(pth):
+            continue
+        seen.add(mname)
+        txt = re.sub(r"\(\*.*?\*\)", " ", open(pth).read(), flags=re.S)
+        txt = re.sub(r"\\\*.*", " ", txt)
+        for mm in re.finditer(r"\bEXTENDS\b([^\n]*(?:\n\s+[A-Za-z_][\w, ]*)*)", txt):
+            todo.extend(x.strip() for x in re.split(r"[,\s]+", mm.group(1)) if x.strip())
+        todo.extend(re.findall(r"\bINSTANCE\s+([A-Za-z_]\w*)", txt))
+    return sorted(seen)
+
+
+def _spec_hash(SPECS, names, root_mod=None):
+    """Content hash of everything a TLC run on root_mod can depend on: the modules in its EXTENDS / INSTANCE
+    closure and the given extra files (the cfg)."""
+    mods = [x + ".tla" for x in _module_closure(SPECS, root_mod)] if root_mod else \
+        sorted(f for f in os.listdir(SPECS) if f.endswith(".tla"))
     h = hashlib.sha1()
-    for n in sorted(set(names) | {f for f in os.listdir(SPECS) if f.endswith(".tla")}):
+    for n in sorted(set(names) | set(mods)):
         pth = os.path.join(SPECS, n)
         if os.path.exists(pth):
             h.update(n.encode())
@@ -71,7 +92,7 @@ def cached_tlc(env, kind, mcmod, cfgfile, tag, **kw):
     root = os.path.dirname(SPECS)
     cdir = os.path.join(root, "work", "l2cache")
     os.makedirs(cdir, exist_ok=True)
-    key = "%s_%s_%s" % (kind, os.path.basename(cfgfile).replace(".cfg", ""), _spec_hash(SPECS, [os.path.basename(cfgfile)]))
+    key = "%s_%s_%s" % (kind, os.path.basename(cfgfile).replace(".cfg", ""), _spec_hash(SPECS, [os.path.basename(cfgfile)], os.path.basename(mcmod)))
     cpath = os.path.join(cdir, key + ".json")
     if os.path.exists(cpath) and not os.environ.get("VERIF_NO_L2_CACHE"):
         try:
